@@ -13,6 +13,7 @@ import Golib.Proof.C20Utf8
 import Golib.Proof.C20Count
 import Golib.Proof.C20Numeral
 import Golib.Proof.C20Value
+import Golib.Proof.C20StrFast
 
 namespace Golib.C20
 open Golib.Gen.C20
@@ -139,6 +140,13 @@ theorem c20_id_increasing (req d1 d2 r1 r2 : Int) (h0 : 0 ≤ d1) (hstep : d1 + 
   exact (c20_id_layout req (millis d1) r1 hr1.1 hr1.2).2.2.2.2 (millis d2) r2 hr2.1 hr2.2
     (by rw [e1, e2]; omega)
 
+/-- `Milliseconds()` truncates toward zero (tied to `time.Duration.Milliseconds` on every
+run by the `millis` lines): boundary values incl. negatives and the ends of int64. -/
+example : millis 999999 = 0 ∧ millis 1000000 = 1 ∧ millis (-999999) = 0 ∧ millis (-1000000) = -1 ∧
+    millis (-1000001) = -1 ∧ millis (2 ^ 63 - 1) = 9223372036854 ∧ millis (-(2 ^ 63)) = -9223372036854 := by
+  refine ⟨by decide +kernel, by decide +kernel, by decide +kernel, by decide +kernel, by decide +kernel,
+    by decide +kernel, by decide +kernel⟩
+
 /-- Non-vacuity: 0.9999 ms and 1.9999 ms after the start (exactly 1 ms apart), largest
 random part first. -/
 example : idGenerate (newIdGen 2) 999900 3 = 3 ∧ idGenerate (newIdGen 2) 1999900 0 = 4 := by
@@ -212,6 +220,14 @@ word (and only one). -/
 theorem c20_str_zero (g : StrGen) (w : Nat) (ws : List Nat) :
     generate g 0 (w :: ws) = .done [] ws :=
   generate_zero g w ws
+
+/-- `c20_str_fast_eq`: the linear-time generator the oracle executes (reversed
+accumulator, one `reverse` at the end) is the statement-by-statement model `generate`, for
+every generator state, every `n` and every word stream — so all theorems about `generate`
+are about what the oracle answers, for `n` in the thousands too. -/
+theorem c20_str_fast_eq (g : StrGen) (n : Int) (ws : List Nat) :
+    generateFast g n ws = generate g n ws :=
+  generateFast_eq g n ws
 
 /-- The returned Go string (`string` of the runes written) decodes back to exactly the
 `n` runes written, for a generator built by `NewStrGenerator` from ANY byte string as
@@ -308,6 +324,44 @@ example : Sorted 0 [⟨10, 5, 1, 4⟩, ⟨10, 7, 2, 3⟩] ∧ Sorted 0 [⟨10, 7
     countMax [⟨10, 7, 2, 3⟩, ⟨10, 5, 1, 4⟩] 9 = some 12 := by
   refine ⟨⟨by decide, by decide, trivial⟩, ⟨by decide, by decide, trivial⟩, by decide +kernel,
     by decide +kernel, by decide +kernel⟩
+
+/-- Value copies of `CountGenerator` (`b := *a`; outside the property: every method has a
+pointer receiver and the property speaks of one generator).  What the model says, so that
+the judgement is explicit — `AddRule` through the original
+* with NO spare capacity (`len = cap`) allocates: the copy still shows exactly its rules;
+* with spare capacity (`len < cap`) sorts the SHARED array in place: the copy shows the
+  first `len` elements of the sorted `len+1` rules — still sorted by period, but if the new
+  rule is not the largest the copy has silently lost its last rule and gained the new one.
+Either way the copy's view is sorted with positive parameters, so `c20_count_bounds` and
+`c20_count_mono` keep holding for the copy AS A FUNCTION OF ITS CURRENT VIEW; what is lost is
+that the view is the rule set the copy was given.  (Extra `count-copy-aliasing` observes
+both cases on the real code, reading `cap` through reflection.) -/
+theorem c20_count_copy_aliasing (s : RuleSlice) (x : Rule) (newCap : Nat) :
+    (s.len = s.arr.length → s.copyViewAfter x newCap = s.view) ∧
+    (s.len < s.arr.length →
+      s.copyViewAfter x newCap = ((s.view ++ [x]).foldl addRule []).take s.len) := by
+  constructor
+  · intro h
+    have : ¬ (s.len < s.arr.length) := by omega
+    simp only [RuleSlice.copyViewAfter, RuleSlice.add, this, if_false, if_true]
+  · intro h
+    have hlen : ((s.view ++ [x]).foldl addRule []).length = s.len + 1 := by
+      have := (c20_addrule_perm (s.view ++ [x])).length_eq
+      rw [this]
+      simp only [RuleSlice.view, List.length_append, List.length_take, List.length_singleton]
+      omega
+    simp only [RuleSlice.copyViewAfter, RuleSlice.add, h, if_true, Bool.false_eq_true, if_false]
+    rw [List.take_append_of_le_length (by omega)]
+
+/-- Non-vacuity: capacity 4 holding periods 10, 20, 30; `AddRule(5, …)` through the
+original: the copy now shows 5, 10, 20 (30 is gone); with capacity 3 it still shows
+10, 20, 30. -/
+example :
+    (RuleSlice.copyViewAfter ⟨[⟨10,1,1,1⟩, ⟨20,1,1,1⟩, ⟨30,1,1,1⟩, ⟨0,0,0,0⟩], 3⟩ ⟨5,1,1,1⟩ 8).map (·.period)
+      = [5, 10, 20] ∧
+    (RuleSlice.copyViewAfter ⟨[⟨10,1,1,1⟩, ⟨20,1,1,1⟩, ⟨30,1,1,1⟩], 3⟩ ⟨5,1,1,1⟩ 6).map (·.period)
+      = [10, 20, 30] := by
+  constructor <;> decide +kernel
 
 /-- Non-vacuity: the rule set of the package's own test (with its zero parameters made
 positive) is sorted and positive; a value across two period boundaries. -/
